@@ -261,15 +261,16 @@ theorem scanDbFiles_eq (ck : Bytes → Nat → Nat) (db : Bytes) (entries : List
         · simp only [scanDbFiles, hs, hl, if_false, ih, List.filterMap_cons, visitFile,
             verifyFileChecksums_eq, ok_bind, pure_eq_ok]
 
-/-- what the scan does with one entry of `base` -/
-def visitDb (ck : Bytes → Nat → Nat) (x : Bytes × BaseEntry) : List ScannedFile :=
+/-- what the scan does with one entry of a directory of database directories (`base`, or a tablespace's
+version directory) whose path relative to the data directory is `dir` -/
+def visitDb (ck : Bytes → Nat → Nat) (dir : Bytes) (x : Bytes × BaseEntry) : List ScannedFile :=
   match x.2 with
   | .file => []
   | .dir entries =>
-    if (parseUint32 x.1).isNone then [] else (sortByName entries).filterMap (visitFile ck x.1)
+    if (parseUint32 x.1).isNone then [] else (sortByName entries).filterMap (visitFile ck (joinPath dir x.1))
 
-theorem scanBase_eq (ck : Bytes → Nat → Nat) (base : List (Bytes × BaseEntry)) :
-    scanBase ck base = .ok (base.flatMap (visitDb ck)) := by
+theorem scanBase_eq (ck : Bytes → Nat → Nat) (dir : Bytes) (base : List (Bytes × BaseEntry)) :
+    scanBase ck dir base = .ok (base.flatMap (visitDb ck dir)) := by
   induction base with
   | nil => rfl
   | cons x rest ih =>
@@ -281,6 +282,60 @@ theorem scanBase_eq (ck : Bytes → Nat → Nat) (base : List (Bytes × BaseEntr
       · simp only [scanBase, hn, if_true, ih, List.flatMap_cons, visitDb, List.nil_append]
       · simp only [scanBase, hn, if_false, ih, List.flatMap_cons, visitDb, scanDbFiles_eq, ok_bind,
           pure_eq_ok, Bool.false_eq_true]
+
+/-- what the scan does with one entry of a tablespace directory `pg_tblspc/<spcoid>` -/
+def visitVer (ck : Bytes → Nat → Nat) (spcPath : Bytes) (x : Bytes × VerEntry) : List ScannedFile :=
+  match x.2 with
+  | .file => []
+  | .dir dbs =>
+    if x.1.take 3 != pgPrefix then [] else (sortByName dbs).flatMap (visitDb ck (joinPath spcPath x.1))
+
+theorem scanVers_eq (ck : Bytes → Nat → Nat) (spcPath : Bytes) (vers : List (Bytes × VerEntry)) :
+    scanVers ck spcPath vers = .ok (vers.flatMap (visitVer ck spcPath)) := by
+  induction vers with
+  | nil => rfl
+  | cons x rest ih =>
+    obtain ⟨name, e⟩ := x
+    cases e with
+    | file => simp only [scanVers, ih, List.flatMap_cons, visitVer, List.nil_append]
+    | dir dbs =>
+      by_cases hn : (name.take 3 != pgPrefix) = true
+      · simp only [scanVers, hn, if_true, ih, List.flatMap_cons, visitVer, List.nil_append]
+      · simp only [scanVers, hn, if_false, ih, List.flatMap_cons, visitVer, scanBase_eq, ok_bind,
+          pure_eq_ok, Bool.false_eq_true]
+
+/-- what the scan does with one entry of `pg_tblspc` -/
+def visitSpc (ck : Bytes → Nat → Nat) (x : Bytes × SpcEntry) : List ScannedFile :=
+  if (parseUint32 x.1).isNone then []
+  else match x.2 with
+    | .file => []
+    | .dir vers => (sortByName vers).flatMap (visitVer ck (joinPath tblspcName x.1))
+
+theorem scanSpcs_eq (ck : Bytes → Nat → Nat) (spcs : List (Bytes × SpcEntry)) :
+    scanSpcs ck spcs = .ok (spcs.flatMap (visitSpc ck)) := by
+  induction spcs with
+  | nil => rfl
+  | cons x rest ih =>
+    obtain ⟨name, e⟩ := x
+    by_cases hn : (parseUint32 name).isNone = true
+    · simp only [scanSpcs, hn, if_true, ih, List.flatMap_cons, visitSpc, List.nil_append]
+    · cases e with
+      | file => simp only [scanSpcs, hn, if_false, ih, List.flatMap_cons, visitSpc, List.nil_append, Bool.false_eq_true]
+      | dir vers =>
+        simp only [scanSpcs, hn, if_false, ih, List.flatMap_cons, visitSpc, scanVers_eq, ok_bind,
+          pure_eq_ok, Bool.false_eq_true]
+
+/-- the files of `global/` (nothing when the directory cannot be listed) -/
+def visitGlobal (ck : Bytes → Nat → Nat) (g : Option (List (Bytes × DbEntry))) : List ScannedFile :=
+  match g with
+  | none => []
+  | some es => (sortByName es).filterMap (visitFile ck globalName)
+
+/-- everything the scan visits, in scan order: `global/`, then `base/<dboid>/`, then
+`pg_tblspc/<spcoid>/PG_…/<dboid>/` -/
+def scannedFiles (ck : Bytes → Nat → Nat) (fs : DataDirFS) (entries : List (Bytes × BaseEntry)) : List ScannedFile :=
+  visitGlobal ck fs.global ++ (sortByName entries).flatMap (visitDb ck baseName) ++
+    (sortByName fs.tblspc).flatMap (visitSpc ck)
 
 theorem insertByName_perm {α} (x : Bytes × α) (l : List (Bytes × α)) : (insertByName x l).Perm (x :: l) := by
   induction l with
@@ -304,15 +359,111 @@ theorem sortByName_perm {α} (xs : List (Bytes × α)) : (sortByName xs).Perm xs
 theorem verifyDataDirChecksums_eq (ck : Bytes → Nat → Nat) (fs : DataDirFS) (entries : List (Bytes × BaseEntry))
     (h : fs.base = some entries) :
     verifyDataDirChecksums ck fs =
-      .ok (.ok (summarize fs.checksumsEnabled ((sortByName entries).flatMap (visitDb ck)))) := by
-  unfold verifyDataDirChecksums
+      .ok (.ok (summarize fs.checksumsEnabled (scannedFiles ck fs entries))) := by
+  unfold verifyDataDirChecksums scannedFiles visitGlobal
   rw [h]
-  simp only [scanBase_eq, ok_bind, pure_eq_ok]
+  cases fs.global with
+  | none => simp only [scanBase_eq, scanSpcs_eq, ok_bind, pure_eq_ok]
+  | some es => simp only [scanDbFiles_eq, scanBase_eq, scanSpcs_eq, ok_bind, pure_eq_ok]
 
 theorem verifyDataDirChecksums_noBase (ck : Bytes → Nat → Nat) (fs : DataDirFS) (h : fs.base = none) :
     verifyDataDirChecksums ck fs = .ok (.error .noBase) := by
   unfold verifyDataDirChecksums
   rw [h]; rfl
+
+/-! ### the scan does not depend on the order of the directory listings -/
+
+theorem perm_flatMap_left {α β} (l : List α) (f g : α → List β) (h : ∀ a ∈ l, (f a).Perm (g a)) :
+    (l.flatMap f).Perm (l.flatMap g) := by
+  induction l with
+  | nil => exact List.Perm.refl _
+  | cons a t ih =>
+    simp only [List.flatMap_cons]
+    exact List.Perm.append (h a (by simp)) (ih fun b hb => h b (by simp [hb]))
+
+/-- `visitDb` without the sort -/
+def visitDbU (ck : Bytes → Nat → Nat) (dir : Bytes) (x : Bytes × BaseEntry) : List ScannedFile :=
+  match x.2 with
+  | .file => []
+  | .dir entries =>
+    if (parseUint32 x.1).isNone then [] else entries.filterMap (visitFile ck (joinPath dir x.1))
+
+def visitVerU (ck : Bytes → Nat → Nat) (spcPath : Bytes) (x : Bytes × VerEntry) : List ScannedFile :=
+  match x.2 with
+  | .file => []
+  | .dir dbs => if x.1.take 3 != pgPrefix then [] else dbs.flatMap (visitDbU ck (joinPath spcPath x.1))
+
+def visitSpcU (ck : Bytes → Nat → Nat) (x : Bytes × SpcEntry) : List ScannedFile :=
+  if (parseUint32 x.1).isNone then []
+  else match x.2 with
+    | .file => []
+    | .dir vers => vers.flatMap (visitVerU ck (joinPath tblspcName x.1))
+
+/-- the visited files listed straight from the directory contents as given (no sorting anywhere): the files of
+`global/`, of every directory `base/<uint32>/`, and of every directory `pg_tblspc/<uint32>/PG_…/<uint32>/` -/
+def listedFiles (ck : Bytes → Nat → Nat) (fs : DataDirFS) (entries : List (Bytes × BaseEntry)) : List ScannedFile :=
+  (match fs.global with | none => [] | some es => es.filterMap (visitFile ck globalName)) ++
+    entries.flatMap (visitDbU ck baseName) ++ fs.tblspc.flatMap (visitSpcU ck)
+
+theorem visitDb_perm (ck : Bytes → Nat → Nat) (dir : Bytes) (x : Bytes × BaseEntry) :
+    (visitDb ck dir x).Perm (visitDbU ck dir x) := by
+  obtain ⟨name, e⟩ := x
+  cases e with
+  | file => exact List.Perm.refl _
+  | dir entries =>
+    unfold visitDb visitDbU
+    by_cases hn : (parseUint32 name).isNone = true
+    · simp only [hn, if_true]; exact List.Perm.refl _
+    · simp only [hn, if_false, Bool.false_eq_true]
+      exact List.Perm.filterMap _ (sortByName_perm entries)
+
+theorem visitVer_perm (ck : Bytes → Nat → Nat) (spcPath : Bytes) (x : Bytes × VerEntry) :
+    (visitVer ck spcPath x).Perm (visitVerU ck spcPath x) := by
+  obtain ⟨name, e⟩ := x
+  cases e with
+  | file => exact List.Perm.refl _
+  | dir dbs =>
+    unfold visitVer visitVerU
+    by_cases hn : (name.take 3 != pgPrefix) = true
+    · simp only [hn, if_true]; exact List.Perm.refl _
+    · simp only [hn, if_false, Bool.false_eq_true]
+      exact (List.Perm.flatMap_right _ (sortByName_perm dbs)).trans
+        (perm_flatMap_left _ _ _ fun a _ => visitDb_perm ck _ a)
+
+theorem visitSpc_perm (ck : Bytes → Nat → Nat) (x : Bytes × SpcEntry) :
+    (visitSpc ck x).Perm (visitSpcU ck x) := by
+  obtain ⟨name, e⟩ := x
+  unfold visitSpc visitSpcU
+  by_cases hn : (parseUint32 name).isNone = true
+  · simp only [hn, if_true]; exact List.Perm.refl _
+  · simp only [hn, if_false, Bool.false_eq_true]
+    cases e with
+    | file => exact List.Perm.refl _
+    | dir vers =>
+      exact (List.Perm.flatMap_right _ (sortByName_perm vers)).trans
+        (perm_flatMap_left _ _ _ fun a _ => visitVer_perm ck _ a)
+
+/-- the scanned files are the listed files, each exactly as often (a permutation): os.ReadDir's sort only fixes
+the order -/
+theorem scannedFiles_perm (ck : Bytes → Nat → Nat) (fs : DataDirFS) (entries : List (Bytes × BaseEntry)) :
+    (scannedFiles ck fs entries).Perm (listedFiles ck fs entries) := by
+  unfold scannedFiles listedFiles visitGlobal
+  refine List.Perm.append (List.Perm.append ?_ ?_) ?_
+  · cases fs.global with
+    | none => exact List.Perm.refl _
+    | some es => exact List.Perm.filterMap _ (sortByName_perm es)
+  · exact (List.Perm.flatMap_right _ (sortByName_perm entries)).trans
+      (perm_flatMap_left _ _ _ fun a _ => visitDb_perm ck _ a)
+  · exact (List.Perm.flatMap_right _ (sortByName_perm fs.tblspc)).trans
+      (perm_flatMap_left _ _ _ fun a _ => visitSpc_perm ck a)
+
+/-- the totals of the summary are sums: they do not depend on the order either -/
+theorem sum_map_perm {α} (f : α → Nat) {l₁ l₂ : List α} (h : l₁.Perm l₂) : (l₁.map f).sum = (l₂.map f).sum := by
+  induction h with
+  | nil => rfl
+  | cons x _ ih => simp only [List.map_cons, List.sum_cons, ih]
+  | swap x y l => simp only [List.map_cons, List.sum_cons]; omega
+  | trans _ _ ih1 ih2 => exact ih1.trans ih2
 
 /-! ### the file-name filter -/
 
@@ -367,7 +518,7 @@ theorem relFileSegment_split (stem suffix : Bytes) (h : (46 : UInt8) ∉ suffix)
     relFileSegment (stem ++ 46 :: suffix) =
       match parseUint32 suffix with
       | none => none
-      | some seg => if (parseUint32 stem).isSome then some seg else none := by
+      | some seg => if (parseUint32 (stripFork stem)).isSome then some seg else none := by
   unfold relFileSegment
   rw [lastIndexByte_split stem suffix 46 h]
   have h1 : (stem ++ 46 :: suffix).drop (stem.length + 1) = suffix := by
@@ -377,15 +528,15 @@ theorem relFileSegment_split (stem suffix : Bytes) (h : (46 : UInt8) ∉ suffix)
   cases parseUint32 suffix <;> rfl
 
 theorem relFileSegment_nodot (name : Bytes) (h : (46 : UInt8) ∉ name) :
-    relFileSegment name = if (parseUint32 name).isSome then some 0 else none := by
+    relFileSegment name = if (parseUint32 (stripFork name)).isSome then some 0 else none := by
   unfold relFileSegment
   rw [lastIndexByte_none name 46 h]
 
-/-- the file-name filter: exactly `<digits>` (segment 0) and `<digits>.<digits>` (that segment),
-numbers < 2^32 -/
+/-- the file-name filter: exactly `<number>[fork]` (segment 0) and `<number>[fork].<number>` (that segment), where
+`[fork]` is an optional `_fsm`, `_vm` or `_init` (removed by `stripFork`) and the numbers are decimal, < 2^32 -/
 theorem relFileSegment_iff (name : Bytes) (seg : Nat) : relFileSegment name = some seg ↔
-    ((46 : UInt8) ∉ name ∧ (parseUint32 name).isSome ∧ seg = 0) ∨
-    (∃ stem suffix, name = stem ++ 46 :: suffix ∧ (46 : UInt8) ∉ suffix ∧ (parseUint32 stem).isSome ∧
+    ((46 : UInt8) ∉ name ∧ (parseUint32 (stripFork name)).isSome ∧ seg = 0) ∨
+    (∃ stem suffix, name = stem ++ 46 :: suffix ∧ (46 : UInt8) ∉ suffix ∧ (parseUint32 (stripFork stem)).isSome ∧
       parseUint32 suffix = some seg) := by
   constructor
   · intro h
@@ -398,14 +549,14 @@ theorem relFileSegment_iff (name : Bytes) (seg : Nat) : relFileSegment name = so
       | none => rw [hp] at h; cases h
       | some s' =>
         rw [hp] at h
-        by_cases hs : (parseUint32 stem).isSome = true
+        by_cases hs : (parseUint32 (stripFork stem)).isSome = true
         · simp only [hs, if_true] at h
           exact ⟨hs, h⟩
         · simp only [hs, Bool.false_eq_true, if_false] at h
           cases h
     · left
       rw [relFileSegment_nodot name hd] at h
-      by_cases hs : (parseUint32 name).isSome = true
+      by_cases hs : (parseUint32 (stripFork name)).isSome = true
       · simp only [hs, if_true] at h
         exact ⟨hd, hs, (Option.some.inj h).symm⟩
       · simp only [hs, Bool.false_eq_true, if_false] at h
@@ -416,7 +567,7 @@ theorem relFileSegment_iff (name : Bytes) (seg : Nat) : relFileSegment name = so
     · rw [e, relFileSegment_split stem suffix hn, hp]
       simp only [hs, if_true]
 
-/-! ### the filter against the spec's `isRelSegName` -/
+/-! ### the filter against the Spec's recogniser of relation segment file names -/
 
 section Names
 open PgVerif.Spec.BlockAddr
@@ -458,17 +609,44 @@ theorem parseUint32_isSome (s : Bytes) (h : (parseUint32 s).isSome = true) : isD
   · exact hc.1
   · rw [if_neg hc] at h; cases h
 
-theorem isRelSegName_nodot (name : Bytes) (h : (46 : UInt8) ∉ name) : isRelSegName name = isDigits name := by
-  unfold isRelSegName
+/-- Go's `strconv.ParseUint(s, 10, 32)` accepts exactly the Spec's 32-bit decimal numbers -/
+theorem parseUint32_eq_number32 (s : Bytes) : parseUint32 s = number32 s := by
+  rw [parseUint32_eq]
+  unfold number32
+  by_cases h1 : isDigits s = true
+  · by_cases h2 : decimal s < 2 ^ 32 <;> simp [h1, h2]
+  · simp [h1]
+
+/-- the tool's fork-suffix removal (first of `_fsm`, `_vm`, `_init` that matches) is the Spec's -/
+theorem stripFork_eq_beforeFork (s : Bytes) : stripFork s = beforeFork s := by
+  unfold stripFork beforeFork forkSuffixes
+  have e : ∀ suf, nameEndsIn s suf = endsIn s suf := fun _ => rfl
+  simp only [List.find?, e, Fork.suffix]
+  by_cases h1 : endsIn s [95, 102, 115, 109] = true
+  · simp only [h1, if_true, List.length_cons, List.length_nil]
+  · simp only [h1, Bool.false_eq_true, if_false]
+    by_cases h2 : endsIn s [95, 118, 109] = true
+    · simp only [h2, if_true, List.length_cons, List.length_nil]
+    · simp only [h2, Bool.false_eq_true, if_false]
+      by_cases h3 : endsIn s [95, 105, 110, 105, 116] = true
+      · simp only [h3, if_true, List.length_cons, List.length_nil]
+      · simp only [h3, Bool.false_eq_true, if_false]
+
+theorem relSegNumber_nodot (name : Bytes) (h : (46 : UInt8) ∉ name) :
+    relSegNumber name = if (number32 (beforeFork name)).isSome then some 0 else none := by
+  unfold relSegNumber
   have hall : ∀ y ∈ name.reverse, (y != 46) = true := fun y hy => by
     have hy' : y ∈ name := by simpa using hy
     have : y ≠ 46 := fun e => h (e ▸ hy')
     simpa using this
   rw [List.span, span_loop_all _ _ _ hall]
 
-theorem isRelSegName_split (stem suffix : Bytes) (h : (46 : UInt8) ∉ suffix) :
-    isRelSegName (stem ++ 46 :: suffix) = (isDigits suffix && isDigits stem) := by
-  unfold isRelSegName
+theorem relSegNumber_split (stem suffix : Bytes) (h : (46 : UInt8) ∉ suffix) :
+    relSegNumber (stem ++ 46 :: suffix) =
+      match number32 suffix with
+      | none => none
+      | some seg => if (number32 (beforeFork stem)).isSome then some seg else none := by
+  unfold relSegNumber
   have hall : ∀ y ∈ suffix.reverse, (y != 46) = true := fun y hy => by
     have hy' : y ∈ suffix := by simpa using hy
     have : y ≠ 46 := fun e => h (e ▸ hy')
@@ -476,38 +654,17 @@ theorem isRelSegName_split (stem suffix : Bytes) (h : (46 : UInt8) ∉ suffix) :
   have hr : (stem ++ 46 :: suffix).reverse = suffix.reverse ++ 46 :: stem.reverse := by simp
   rw [List.span, hr, span_loop_stop _ _ _ _ _ hall (by simp)]
   simp only [List.reverse_nil, List.nil_append, List.reverse_reverse]
+  cases number32 suffix <;> rfl
 
-/-- every name the scan accepts is a main-fork segment file name of the spec … -/
-theorem relFileSegment_isRelSegName (name : Bytes) (seg : Nat) (h : relFileSegment name = some seg) :
-    isRelSegName name = true := by
-  rcases (relFileSegment_iff name seg).mp h with ⟨hd, hs, _⟩ | ⟨stem, suffix, e, hn, hs, hp⟩
-  · rw [isRelSegName_nodot name hd]; exact parseUint32_isSome name hs
-  · rw [e, isRelSegName_split stem suffix hn, parseUint32_isSome stem hs,
-      parseUint32_isSome suffix (by rw [hp]; rfl)]
-    rfl
-
-/-- … and conversely, as long as the numbers fit in 32 bits (`decimal` of each part `< 2^32`) -/
-theorem isRelSegName_relFileSegment (name : Bytes) (h : isRelSegName name = true) :
-    ((46 : UInt8) ∉ name ∧ (decimal name < 2 ^ 32 → relFileSegment name = some 0)) ∨
-    (∃ stem suffix, name = stem ++ 46 :: suffix ∧ (46 : UInt8) ∉ suffix ∧
-      (decimal stem < 2 ^ 32 → decimal suffix < 2 ^ 32 → relFileSegment name = some (decimal suffix))) := by
+/-- **The file-name filter of the scan is the Spec's recogniser of relation segment file names**, for EVERY name:
+the scan accepts a name, with segment number `seg`, exactly when PostgreSQL's file-name grammar
+`<relfilenode>[_fsm|_vm|_init][.<segno>]` (32-bit decimal numbers) does. -/
+theorem relFileSegment_eq_relSegNumber (name : Bytes) : relFileSegment name = relSegNumber name := by
   by_cases hd : (46 : UInt8) ∈ name
   · obtain ⟨stem, suffix, e, hn⟩ := exists_last_split name 46 hd
-    right
-    refine ⟨stem, suffix, e, hn, fun h1 h2 => ?_⟩
-    rw [e, isRelSegName_split stem suffix hn] at h
-    have h := Bool.and_eq_true_iff.mp h
-    have hc1 : isDigits suffix = true ∧ decimal suffix < 2 ^ 32 := ⟨h.1, h2⟩
-    have hc2 : isDigits stem = true ∧ decimal stem < 2 ^ 32 := ⟨h.2, h1⟩
-    rw [e, relFileSegment_split stem suffix hn, parseUint32_eq suffix, parseUint32_eq stem,
-      if_pos hc1, if_pos hc2]
-    rfl
-  · left
-    refine ⟨hd, fun h1 => ?_⟩
-    rw [isRelSegName_nodot name hd] at h
-    have hc : isDigits name = true ∧ decimal name < 2 ^ 32 := ⟨h, h1⟩
-    rw [relFileSegment_nodot name hd, parseUint32_eq name, if_pos hc]
-    rfl
+    rw [e, relFileSegment_split stem suffix hn, relSegNumber_split stem suffix hn, parseUint32_eq_number32,
+      parseUint32_eq_number32, stripFork_eq_beforeFork]
+  · rw [relFileSegment_nodot name hd, relSegNumber_nodot name hd, parseUint32_eq_number32, stripFork_eq_beforeFork]
 
 end Names
 
